@@ -499,7 +499,7 @@ def print_post(chk, case, meta, text, got, payload):
     if not isinstance(doc, list) or len(doc) != len(fs):
         chk.disagree({"kind": "print", "fn": "manifest", "class": "wrong-value"}, f"`{case['src'][:100]}` -> {text[:100]}", payload)
         return
-    for f, item in zip(fs, doc):
+    for idx, (f, item) in enumerate(zip(fs, doc)):
         num, s1, s2, s3 = item
         t = num[1] if isinstance(num, (list, tuple)) and num[0] == "num" else None
         here = dict(payload, number=repr(f))
@@ -509,7 +509,7 @@ def print_post(chk, case, meta, text, got, payload):
         bump(chk, "print", "numbers")
         if float(t) != f:
             chk.disagree({"kind": "print", "fn": "manifest", "class": "literal-misread"},
-                         f"the literal {nu.float_lit(f, meta['style'])[:80]} comes back as {t[:60]} = {float(t)!r}, expected {f!r}", here)
+                         f"the literal {(meta['lits'][idx] if 'lits' in meta else nu.float_lit(f, meta['style']))[:80]} comes back as {t[:60]} = {float(t)!r}, expected {f!r}", here)
             continue
         for fn, s in (("toString", s1), ("string-concat", s2), ("manifestJsonMinified", s3)):
             if s != t:
@@ -539,6 +539,39 @@ def gen_print_cases(chk, run, tier, r, grid):
                           for f in part)
         run.add(f"[{items}]", {"kind": "print", "fn": "manifest", "r": {"c": "printed"}, "x": "ok", "floats": part,
                                "style": style, "parser": print_parser, "post": print_post}, manifest="single")
+
+
+def gen_midpoint_cases(chk, run, tier, r, grid):
+    """Long literals (20 .. 1200 significant digits) a hair above / below / exactly at the midpoint
+    of two adjacent doubles: the only inputs on which a reader that keeps a bounded number of digits,
+    or rounds twice, differs from the correctly rounded one.  Expected value by exact rational
+    arithmetic (ties to even)."""
+    n = 1500 if tier == "quick" else 30000
+    fs = [abs(f) for f in grid if math.isfinite(f)] + [0.0, 5e-324, 1.0, 2.0 ** 53, 2.0 ** 63, 0.1]
+    for i in range(n):
+        fs.append(abs(nu.random_double(r) if i % 2 else nu.decimalish_double(r)))
+    items, floats, lits = [], [], []
+
+    def flush():
+        if items:
+            run.add("[" + ", ".join(items) + "]",
+                    {"kind": "print", "fn": "literal-midpoint", "r": {"c": "printed"}, "x": "ok", "floats": list(floats),
+                     "lits": list(lits), "style": 2, "parser": print_parser, "post": print_post}, manifest="single")
+            items.clear(), floats.clear(), lits.clear()
+
+    for a in fs:
+        if not math.isfinite(math.nextafter(a, math.inf)):
+            continue
+        side = r.choice([1, 1, -1, -1, 0])
+        t, want = nu.midpoint_literal(a, side, r)
+        neg = r.random() < 0.3
+        lit = "(-" + t + ")" if neg else t
+        items.append(f"local x = {lit}; [x, std.toString(x), \"\" + x, std.manifestJsonMinified(x)]")
+        floats.append(-want if neg else want)
+        lits.append(lit)
+        if len(items) >= 10:
+            flush()
+    flush()
 
 
 HOST_BIN = {"add": "x + y", "sub": "x - y", "mul": "x * y", "div": "x / y", "mod": "x % y",
@@ -650,6 +683,8 @@ def run(tier, seed):
         "functions by class only)",
         "zeros are compared by value (0 == -0): the sign of a zero result is not part of this property",
         "operands are written as decimal literals (shortest / 17 digits / exact expansion / 25 digits)",
+        "midpoint literals (20..1200 significant digits just above / below / at the midpoint of adjacent doubles, "
+        "positional or scientific, with digit separators): expected double by exact rational arithmetic, ties to even",
     ]
     vlib.build_harness()
     t0 = time.time()
@@ -663,6 +698,7 @@ def run(tier, seed):
     gen_boundary_literals(chk, run_, r)
     grid = sorted({nu.sym_to_float(v) for c in tlc["un"].lines("CASE") for v in c["a"]}, key=lambda f: (abs(f), f))
     gen_print_cases(chk, run_, tier, r, grid)
+    gen_midpoint_cases(chk, run_, tier, r, grid)
     gen_random_arith(chk, run_, tier, r)
     run_.flush()
     chk.traces_validated = run_.total
